@@ -413,7 +413,7 @@ def run(ctx):
     ctx.assumptions += ['data-field functions and generators return arrays not referenced by the stored data',
                         'one MCDataSamplingBkgGenMethod instance per history (one _cache_mc)']
     # ---- scrambling contract
-    for i in range(ctx.n(40, 600)):
+    for i in range(ctx.n(60, 1500)):
         spec = pf.gen_spec(rng)
         case = {'spec': spec, 'scr': rng.choice(pf.SCRAMBLERS), 'seed': rng.randrange(10**6),
                 'via': rng.choice(['scrambler', 'bkg'])}
@@ -424,7 +424,7 @@ def run(ctx):
             ctx.violation('scramble', case, res, signature='C07/scramble/%s/%s' % (case['scr'], 'ra-range' if 'right ascension' in res else 'contract'))
     # ---- byte snapshots over histories (incl. Analysis.do_trial)
     maxlen = ctx.n(4, 6)
-    for i in range(ctx.n(120, 2500)):
+    for i in range(ctx.n(250, 8000)):
         spec = pf.gen_spec(rng)
         ops = gen_history(rng, rng.randrange(1, maxlen + 1), with_dotrial=True)
         case = {'spec': spec, 'ops': ops}
@@ -439,7 +439,7 @@ def run(ctx):
     # ---- correspondence with the heap model (one driver batch)
     dis = 0
     batch, all_lines = [], []
-    for i in range(ctx.n(150, 2500)):
+    for i in range(ctx.n(300, 6000)):
         spec = pf.gen_spec(rng)
         ops = gen_history(rng, rng.randrange(1, maxlen + 1))
         case = {'spec': spec, 'ops': ops}
